@@ -279,6 +279,16 @@ class Normalizer:
             a, b = self.norm(t[2]), self.norm(t[3])
             if a == b:
                 return a
+            c = t[1]
+            if c[0] == "cmp" and c[1] in (">", ">=", "<", "<="):
+                # an explicit clamp: `x if x <= c else c` / `if x > c: x = c` is min(x, c); likewise max (equal at the boundary, so the
+                # strictness of the test does not matter)
+                l, r = self.norm(c[2]), self.norm(c[3])
+                if {a, b} == {l, r} and a != b:
+                    taken_is_left = (a == l)
+                    name = {(">", True): "max", (">=", True): "max", ("<", True): "min", ("<=", True): "min",
+                            (">", False): "min", (">=", False): "min", ("<", False): "max", ("<=", False): "max"}[(c[1], taken_is_left)]
+                    return atom(f"{name}({', '.join(sorted([a.key(), b.key()]))})")
             return atom(f"phi({ir.show(t[1], maxdepth=4)}; {a.key()}; {b.key()})")
         if k == "ifexp":
             a, b = self.norm(t[2]), self.norm(t[3])
